@@ -1,12 +1,13 @@
 import GbVerif.Model.JitCycles
 import GbVerif.Proofs.Enum
+import GbVerif.Proofs.X86Cycles
 /-!
 C02 — the recompiler and the interpreter charge identical machine cycles.
 Both tables are regenerated from the source on every run (`Gen.EmitTable` by RUNNING the emitter, `Gen.DecoderOps`
 from the decoder arms); the kernel re-checks the equalities below against what the code says now.
 -/
 namespace GbVerif.C02
-open GbVerif.Enum GbVerif.JitCycles
+open GbVerif.Enum GbVerif.JitCycles GbVerif.X86
 
 /-- the comparison for one unprefixed encoding: `true` iff the encoding is undefined/prefix, or the set of cycle
 charges over all paths of the emitted code equals the set the interpreter model charges over both flag outcomes -/
@@ -33,6 +34,90 @@ theorem cycles_eq_unprefixed : ∀ b0, b0 < 2^8 → okOp b0 = true :=
 /-- the same for all 256 CB-prefixed encodings -/
 theorem cycles_eq_cb : ∀ b1, b1 < 2^8 → okCb b1 = true :=
   forall_lt_of_allRange okCb 8 (by decide +kernel)
+
+
+/-! ### what the analysis means on the executable x86 model
+
+`jitCycles` is a static analysis of the emitted bytes.  `X86.jitCycles_sound` (in `Proofs/X86Cycles.lean`, by induction
+over the analysis with a frame lemma over every modelled x86 instruction and the bus-call helper) shows that its
+answer bounds every execution of the template on `Model/X86Sem.lean`; the two theorems below instantiate it at all 501
+templates, so the equality of cycle charges is a statement about runs, not about a syntactic pass. -/
+
+/-- well-formedness of one template for the soundness theorem: it decodes, byte offsets identify instructions
+uniquely, none is the end offset, they do not decrease, and the first instruction sits at offset 0 -/
+def wfTemplate (t : List Nat) : Bool :=
+  match decodeCode t with
+  | none => false
+  | some code => X86.codeOk code (bytesOf t) && X86.offAt code (bytesOf t) 0 == 0
+
+theorem wf_unprefixed : ∀ b0, b0 < 2^8 → ((Gen.emitOp b0).isEmpty || wfTemplate (Gen.emitOp b0)) = true :=
+  forall_lt_of_allRange (fun b0 => (Gen.emitOp b0).isEmpty || wfTemplate (Gen.emitOp b0)) 8 (by decide +kernel)
+
+theorem wf_cb : ∀ b1, b1 < 2^8 → wfTemplate (Gen.emitCb b1) = true :=
+  forall_lt_of_allRange (fun b1 => wfTemplate (Gen.emitCb b1)) 8 (by decide +kernel)
+
+/-- the statement about runs for one template `t` against the decoder entry `(op, len, clk)` -/
+def RunsCharge (t : List Nat) (op : Op) (len clk : Nat) : Prop :=
+  ∃ code C, decodeCode t = some code ∧ interpCycles op len clk = some C ∧
+    ∀ (β : Type) (B : Interp.BusOps β) (fuel : Nat) (s s' : X86.St β), s.r.size = 16 → s.pc = 0 →
+      X86.run B code (bytesOf t) fuel s = .ok s' →
+      ∃ l ∈ C, (X86.get s' 15).toNat = ((X86.get s 15).toNat + l) % 2 ^ 64
+
+theorem runsCharge_of (t : List Nat) (op : Op) (len clk : Nat) (hwf : wfTemplate t = true)
+    (heq : (match jitCycles t, interpCycles op len clk with | some a, some b => a == b | _, _ => false) = true) :
+    RunsCharge t op len clk := by
+  unfold wfTemplate at hwf
+  cases hdec : decodeCode t with
+  | none => rw [hdec] at hwf; cases hwf
+  | some code =>
+    rw [hdec] at hwf
+    simp only [Bool.and_eq_true, beq_iff_eq] at hwf
+    cases hj : jitCycles t with
+    | none => rw [hj] at heq; cases heq
+    | some a =>
+      cases hi : interpCycles op len clk with
+      | none => rw [hj, hi] at heq; cases heq
+      | some b =>
+        rw [hj, hi] at heq
+        have hab : a = b := by simpa using heq
+        subst hab
+        refine ⟨code, a, hdec, hi, ?_⟩
+        intro β B fuel s s' hsz hpc hrun
+        exact X86.jitCycles_sound B t code a hdec hwf.1 hj fuel s s' hsz (by rw [hpc, hwf.2]) hrun
+
+/-- **C02 (per instruction, on executions)**: for every defined unprefixed encoding, EVERY complete run of its
+emitted template on the x86 model - from any register file, flags, host stack, bus and operand bytes, over any bus
+behaviour - leaves r15 (the guest cycle counter) increased, modulo 2^64, by one of the charges the interpreter
+model makes for that encoding (not taken / taken) -/
+theorem cycles_run_unprefixed (b0 : Nat) (hb : b0 < 2^8) (hne : (Gen.emitOp b0).isEmpty = false) :
+    RunsCharge (Gen.emitOp b0) (Gen.decode b0 0 0).1 (Gen.decode b0 0 0).2.1 (Gen.decode b0 0 0).2.2 := by
+  have hwf := wf_unprefixed b0 hb
+  rw [hne, Bool.false_or] at hwf
+  have hok := cycles_eq_unprefixed b0 hb
+  unfold okOp at hok
+  simp only [hne, Bool.false_eq_true, if_false] at hok
+  exact runsCharge_of _ _ _ _ hwf hok
+
+/-- the same for all 256 CB-prefixed encodings -/
+theorem cycles_run_cb (b1 : Nat) (hb : b1 < 2^8) :
+    RunsCharge (Gen.emitCb b1) (Gen.decode 0xcb b1 0).1 (Gen.decode 0xcb b1 0).2.1 (Gen.decode 0xcb b1 0).2.2 :=
+  runsCharge_of _ _ _ _ (wf_cb b1 hb) (by have := cycles_eq_cb b1 hb; unfold okCb at this; exact this)
+
+/-! non-vacuity: templates do run to completion on the model from a state meeting the hypotheses (16 registers,
+pc = 0), and the charge is the one of the branch outcome — NOP; JR NZ taken / not taken; CALL; RET NZ taken / not -/
+def exSt (f : Nat) : X86.St Unit :=
+  { r := #[BitVec.ofNat 64 f,0,0,0,0,0,0,0,0,0,0,0,0xc000,0x150,0,7], bus := (), stack := [1,2] }
+def r15After (b0 f : Nat) : Option Nat :=
+  match decodeCode (Gen.emitOp b0) with
+  | none => none
+  | some code => match X86.run nullBus code (bytesOf (Gen.emitOp b0)) 400 (exSt f) with
+    | .ok s' => some (X86.get s' 15).toNat
+    | .error _ => none
+example : (exSt 0).r.size = 16 ∧ (exSt 0).pc = 0 := by decide
+example : r15After 0x00 0 = some (7 + 1) := by decide +kernel
+example : r15After 0x20 0x00 = some (7 + 3) ∧ r15After 0x20 0x80 = some (7 + 2) := by decide +kernel
+example : r15After 0xcd 0 = some (7 + 6) := by decide +kernel
+example : r15After 0xc0 0x00 = some (7 + 5) ∧ r15After 0xc0 0x80 = some (7 + 2) := by decide +kernel
 
 /-- the table covers every defined encoding: the emitter produced code exactly for the opcodes the decoder defines -/
 theorem table_covers_defined : ∀ b0, b0 < 2^8 → ((Gen.emitOp b0).isEmpty = (b0 == 0xcb || Gen.decOp b0 0 0 == Op.Invalid b0)) = true := by
